@@ -60,6 +60,20 @@ CHECKS = {
              "hash/GF/CRC implementations (validated against reference vectors) and the reading that a stripe with a CHG/REP/DELETED "
              "block is not recorded as synced.",
         design="DESIGN.md section 4, C06"),
+    "C07": dict(
+        category="fault_enumeration",
+        technique="fault injection over generated cases: process kill at every/sampled state-changing syscall (LD_PRELOAD shim), SIGINT/SIGTERM at parity-write indices, then independent oracles",
+        engine="hypothesis-cli",
+        text="For generated arrays with a pending change set, a traced sync counts its state-changing system calls; the sync is then "
+             "re-run from the same restored array and killed before / after / in the middle of call k (sampled k in quick, every k "
+             "of the case in thorough) or stopped by SIGINT/SIGTERM at a parity write. After each interruption: data disks byte- and "
+             "mtime-identical, every content copy complete and loadable (independent parser + status/diff/list), C06 oracle on every "
+             "copy and single-device (abrupt) / N-device (graceful) recovery of every previously synced file for adds-only sets, "
+             "resumed sync completes and recovers a lost disk. Interrupted fix re-run equals an uninterrupted fix.",
+        note="Crash model is process death (page cache survives). Hash size fixed at 16 (the property does not range over hash "
+             "sizes). A short write into a parity block counts as one damaged block of that stripe, so the single-device clause is "
+             "checked there only with >= 2 parity levels.",
+        design="DESIGN.md section 4, C07"),
 }
 
 NOT_YET = "check not built yet at this commit (planned in DESIGN.md section 4); not claimed until it runs"
